@@ -37,6 +37,8 @@ func main() {
 		runC02()
 	case "C03":
 		runC03()
+	case "C16":
+		runC16()
 	default:
 		fmt.Println("unknown property", *prop)
 		os.Exit(2)
